@@ -1071,7 +1071,17 @@ func isProdIndexByParam(c *Ctx, f *ssa.Function, x, idx ssa.Value) bool {
 		return false
 	}
 	gl, ok := u.X.(*ssa.Global)
-	if !ok || gl.Name() != "productions" {
+	if !ok {
+		return false
+	}
+	// the package-level list of productions, found by its type ([]*grammar.Production), not by its name
+	pt, isPtr := gl.Type().(*types.Pointer)
+	if !isPtr {
+		return false
+	}
+	el := sliceElem(pt.Elem())
+	ep, isPP := el.(*types.Pointer)
+	if el == nil || !isPP || !typeIs(ep.Elem(), "grammar", "Production") {
 		return false
 	}
 	switch v := idx.(type) {
